@@ -83,6 +83,7 @@ func intFact(atom ssa.Value, val bool, k int64, eq bool, match func(ssa.Value) b
 func runC16(c *Ctx, r *Report) {
 	l := c.L
 	defer c16r9(c, r)
+	defer c16r10(c, r)
 	h := l.Fn("fzf", "(*httpServer).handleHttpRequest")
 	start := l.Fn("fzf", "startHttpServer")
 	fApiKey := l.Field("fzf", "httpServer", "apiKey")
